@@ -183,6 +183,7 @@ func runsFor(prop, tier string) []run {
 				return c
 			}(), pick(6, 8), minutes(pickf(0.4, 3))},
 			{"rebuild-killed-at-every-gate-then-retried", mk(withData, []string{"RB", "Step", "Kill", "MonFail", "W0"}, 3, 1, 0, 4), pick(30, 60), minutes(pickf(1.0, 10))},
+			{"rebuild-with-a-file-transfer-dying-half-way", mk(withData, []string{"RB", "Step", "XferFail"}, 2, 0, 0, 3), pick(30, 60), minutes(pickf(0.6, 6))},
 		}
 	case "C16ctl":
 		mk := func(rf int, init []string) eb.Cfg {
